@@ -99,10 +99,9 @@ theorem mem_zip_of_get {α β : Type} : ∀ (as : List α) (bs : List β) (i : N
 theorem EInv.of_tables {E : Env S} {s s' : St S} (h : EInv E s) (hc : ∀ nt, s'.clOf nt = s.clOf nt)
     (hb : ∀ nt, s'.bankOf nt = s.bankOf nt) (he : ∀ nt, s'.emptiesOf nt = s.emptiesOf nt) (hd : s'.deleted = s.deleted) : EInv E s' := by
   have hba : ∀ nt ci, s'.bankAt nt ci = s.bankAt nt ci := fun nt ci => by unfold St.bankAt; rw [hb]
-  refine ⟨fun nt ci hh => ?_, fun q hq => h.d1 q (by rw [← hd]; exact hq), fun nt ci hh => ?_, fun nt hne P rl hr a ha => ?_, ?_⟩
+  refine ⟨fun nt ci hh => ?_, fun q hq => h.d1 q (by rw [← hd]; exact hq), fun nt ci hh => ?_, ?_⟩
   · rw [hba]; exact h.e2 nt ci (by rw [← he]; exact hh)
   · rw [hc]; apply h.be nt ci; unfold Entered at hh ⊢; rw [hb, he] at hh; exact hh
-  · rw [hc] at hne ⊢; exact h.ini nt hne P rl hr a ha
   · intro nt c rest p x hcl hx; rw [hc] at hcl; exact h.lb nt c rest p x hcl hx
 
 theorem E4g.of_tables {s s' : St S} (h : E4g s) (hc : ∀ nt, s'.clOf nt = s.clOf nt)
